@@ -1,6 +1,7 @@
 import Bluge.FS
 import BlugeGen.C13
 import BlugeProofs.C13.Canon
+import BlugeProofs.C13.Eqns
 /-! # C13 — the file-system directory reports success only for durable, exact files
 
 Property theorems only (helper lemmas: `BlugeProofs/C13/Lemmas.lean`, `BlugeProofs/C13/Canon.lean`).
